@@ -62,7 +62,10 @@ def signature(chk, e):
     """egress/<check>/<class>: the class names the part of the abstract row that discriminates the case."""
     r = e["row"]
     pol = r["pol"]
-    flags = "https=%d,redir=%d,rebind=%d" % (pol["https"], pol["redir"], pol["rebind"])
+    if chk.startswith("dlq"):
+        # what the dispatcher did with the delivery result: the row matters only through the result class
+        return ("egress/%s/%s" % (chk, "dispatcher" if e.get("mode") == "dispatch" else "production-wiring"),
+                {"result": e["obs"]["cls"], "state": e["disp"]["state"], "reason": e["disp"]["reason"] or "-", "attempts": e["disp"]["attempts"]})
     if r["fam"] == "rules":
         # the side of the policy the check is about: a request that should not have gone out is about the deny list and the
         # rebind flag, a refusal that should not have happened is about the allow list
@@ -82,8 +85,11 @@ def signature(chk, e):
         cls = "addr:%s,answers=%s,%s;rebind=%d" % (hk, "err" if (hk != "lit" and h["ans"]["st"] == "err") else len(h["ans"]["as"]) if hk != "lit" else "-",
                                                    "+".join(cats) or "plain", pol["rebind"])
     elif r["fam"] == "shape":
+        # grouped: the signature keeps the URL features all failing rows of the family have in common
         u = r["hops"][0]["u"]
-        cls = "shape:scheme=%s,ui=%d,port=%s,host=%s,dot=%d,up=%d;%s" % (u["scheme"], u["ui"], u["port"], u["h"]["k"], u["dot"], u["up"], flags)
+        feats = {"scheme": u["scheme"], "userinfo": int(u["ui"]), "port": u["port"], "host": hop_desc(r["hops"][0]), "dot": int(u["dot"]), "upper": int(u["up"]),
+                 "https_only": int(pol["https"]), "rebind": int(pol["rebind"]), "allowlist": int(bool(pol["allow"]))}
+        return ("egress/%s/shape" % chk, feats)
     else:
         # the hop the check is about: the last one contacted (sent_to_refused_hop) or the first one not contacted
         n = e["obs"]["n"]
@@ -91,8 +97,6 @@ def signature(chk, e):
         k = max(0, min(k, len(r["hops"]) - 1))
         h = r["hops"][k]
         cls = "chain:hop=%s:%s,first=%d;https=%d,redir=%d,rebind=%d" % (h["u"]["scheme"], hop_desc(h), k == 0, pol["https"], pol["redir"], pol["rebind"])
-    if e.get("mode") in ("dispatch", "prod") and chk.startswith("dlq"):
-        cls = "dispatcher;" + cls
     return "egress/%s/%s" % (chk, cls)
 
 
@@ -128,9 +132,14 @@ def reexec(e, out):
     vf.tool("hkv-egress", args, timeout=120)
 
 
-def non_vacuity(ctx, c):
+def non_vacuity(ctx, c, edges=()):
     both = lambda k: [k + "/sent", k + "/refused"]
     keys = []
+    # both edge addresses of every block and every address just outside one were really used (under rebind protection)
+    unused = [e for e in edges if c.get("edge/" + e + "/sent", 0) + c.get("edge/" + e + "/refused", 0) <= 0]
+    if unused and not ctx.violations:
+        raise vf.Infra("vacuous run (C16): edge / just-outside addresses never used: " + ", ".join(unused[:10]))
+    ctx.count("edge_addresses_used", len(edges) - len(unused))
     for cls in V4 + V6 + ["mapped:" + x for x in V4] + ["odd:" + x for x in V4]:
         keys += both("class/" + cls)           # every address class both allowed and denied somewhere
     for k in ("name", "lit", "odd"):
@@ -198,7 +207,8 @@ def run_rest(ctx, nrows, info, timeout):
     if info["rows"] != nrows:
         raise vf.Infra("hkv-egress executed %d rows, TLC generated %d" % (info["rows"], nrows))
     for k, v in info["counters"].items():
-        ctx.count(k, v)
+        if not k.startswith("edge/"):
+            ctx.count(k, v)
     ctx.cov["schedules_executed"] += info["events"]
     ctx.cov["traces_validated_against_impl"] += info["events"]
     files = es.shard_files(out, shards) + es.shard_files(os.path.join(ctx.shm, "egress-trace-prod"), 1)
@@ -209,7 +219,7 @@ def run_rest(ctx, nrows, info, timeout):
     es.triage(ctx, res, "EgressTrace", signature, reexec, describe, rank=rank)
     if sum(r["matched"] for r in res) != total:
         raise vf.Infra("trace validation did not consume every event")
-    non_vacuity(ctx, info["counters"])
+    non_vacuity(ctx, info["counters"], info.get("edges", ()))
     # samples: one denied chain and one dispatcher execution
     picked = set()
     with open(files[0]) as f:
@@ -220,7 +230,7 @@ def run_rest(ctx, nrows, info, timeout):
                 kind = "dispatcher: policy_denied"
             elif len(e["row"]["hops"]) > 2 and e["obs"]["cls"] == "policy_denied" and e["obs"]["n"] >= 1:
                 kind = "redirect chain refused at a later hop"
-            elif e["row"]["fam"] == "addr" and e["obs"]["n"] == 0 and e["row"]["hops"][0]["u"]["h"]["k"] == "odd":
+            elif e["row"]["fam"] == "addr" and e["obs"]["cls"] == "policy_denied" and e["row"]["hops"][0]["u"]["h"]["k"] == "odd":
                 kind = "odd IPv4 notation refused"
             if kind and kind not in picked:
                 picked.add(kind)
